@@ -5,7 +5,7 @@
                      universe IRDags (sharing = one node index referenced twice = one Python object);
    phase "analysis"  CSEAnalysisPass.__call__: ONE ACTION PER ITERATION of its `while True` loop, on
                      the explicit stack of StackFrames (min_binding_depth, min_value_binding_depth,
-                     context, visited / agg_visited, lifted_lets / agg_lifted_lets, child_idx);
+                     scan_scope, context, visited / agg_visited / scan_visited, lifted_lets / agg_ / scan_, child_idx);
                      binding_sites is keyed by node identity only, as in the code;
    phase "print"     CSEPrintPass.__call__: one action per iteration of its loop; builders are
                      abstracted to the sequence of already printed children, the text to a term table;
@@ -23,7 +23,8 @@
    trips `assert not frame.insert_lets` (phase "crashed") or leaves a stale binding frame behind;
    TRUE models the repair (a lifted child is never a binding frame).  The harness measures both
    flags on the implementation under test, so the model always describes the code it is bound to.
-   Scan scope is not modelled (no scan constructs in the fragment).
+   Scan scope is modelled like the code does it: scan_scope per frame, scan_visited / scan_lifted_lets per
+   binding frame, a third context component, `AggLet x True` for a scan binding.
 
    Property (invariant DoneOk): when the renderer is done, the printed term is well scoped under the
    engine's binding rules and evaluates like the inlined DAG in every small environment.         *)
@@ -41,58 +42,85 @@ MaxOf(S) == CHOOSE m \in S : \A x \in S : x <= m
 
 (* ------------------------------- node metadata (ir.py / base_ir.py) ----------------------- *)
 AggCap == "agg_capability"
-CapOps == {"AggSum", "AggCollect", "AggCount", "AggFilter", "AggExplode"}      \* uses_agg_capability()
+CapOps == {"AggSum", "AggMax", "AggCollect", "AggCount", "AggFilter", "AggExplode",
+           "ScanSum", "ScanMax", "ScanCollect", "ScanCount", "ScanFilter"}                 \* uses_agg_capability()
 
-NewBlock(nd, i) == (nd.op = "If" /\ i \in {2, 3}) \/ (nd.op = "StreamAgg" /\ i = 2)
-UsesAgg(nd, i)  == nd.op \in {"AggSum", "AggCollect", "AggFilter", "AggLet", "AggExplode"} /\ i = 1
+NewBlock(nd, i) == (nd.op = "If" /\ i \in {2, 3}) \/ (nd.op \in {"StreamAgg", "StreamAggScan"} /\ i = 2) \/ nd.op = "Site"
+UsesAgg(nd, i)  == nd.op \in {"AggSum", "AggMax", "AggCollect", "AggFilter", "AggLet", "AggExplode"} /\ i = 1
+UsesScan(nd, i) == nd.op \in {"ScanSum", "ScanMax", "ScanCollect", "ScanFilter", "ScanLet"} /\ i = 1
+SiteEvalB(kind) == CASE kind = "mrows" -> {"global", "va", "n_cols", AggCap} [] kind = "mcols" -> {"global", "sa", "n_rows", AggCap}
+                     [] OTHER -> {"global", "row", AggCap}
+SiteAggB(kind)  == IF kind = "trows" THEN {} ELSE {"global", "va", "sa", "g"}
+SiteScanB(kind) == CASE kind = "mrows" -> {"global", "va"} [] kind = "mcols" -> {"global", "sa"} [] OTHER -> {"global", "row"}
 EvalB(nd, i) ==
   CASE nd.op \in {"Let", "StreamMap", "StreamFilter"} /\ i = 2 -> {nd.n[1]}
     [] nd.op = "StreamFold" /\ i = 3                           -> {nd.n[1], nd.n[2]}
-    [] nd.op \in {"StreamAgg", "AggFilter", "AggExplode"} /\ i = 2 -> {AggCap}
+    [] nd.op \in {"StreamAgg", "AggFilter", "ScanFilter", "AggExplode"} /\ i = 2 -> {AggCap}
+    [] nd.op = "StreamAggScan" /\ i = 2                        -> {nd.n[1], AggCap}
+    [] nd.op = "Site"                                          -> SiteEvalB(nd.n[1])
     [] OTHER -> {}
-AggB(nd, i) == IF nd.op \in {"AggLet", "StreamAgg", "AggExplode"} /\ i = 2 THEN {nd.n[1]} ELSE {}
+AggB(nd, i)  == IF nd.op \in {"AggLet", "StreamAgg", "AggExplode"} /\ i = 2 THEN {nd.n[1]}
+                ELSE IF nd.op = "Site" THEN SiteAggB(nd.n[1]) ELSE {}
+ScanB(nd, i) == IF nd.op \in {"ScanLet", "StreamAggScan"} /\ i = 2 THEN {nd.n[1]}
+                ELSE IF nd.op = "Site" THEN SiteScanB(nd.n[1]) ELSE {}
 Liftable(nd) == nd.ty # "s"                                   \* not (is_effectful() or is_stream)
 
-RECURSIVE FV(_), FAV(_)
+RECURSIVE FV(_), FAV(_), FSV(_)
 FV(j) ==
   LET nd == T[j] IN
   IF nd.op = "Ref" THEN {nd.n[1]}
+  ELSE IF nd.op = "Site" THEN {}                       \* BaseIR.free_vars of a relational node
   ELSE IF nd.op = "StreamAgg"
        THEN FV(nd.k[1]) \cup (FAV(nd.k[2]) \ {nd.n[1]})
             \cup (IF FIXFV THEN FV(nd.k[2]) \ {AggCap} ELSE {})
-  ELSE UNION { IF UsesAgg(nd, i) THEN {} ELSE FV(nd.k[i]) \ EvalB(nd, i) : i \in DOMAIN nd.k }
+  ELSE IF nd.op = "StreamAggScan"
+       THEN FV(nd.k[1]) \cup (FSV(nd.k[2]) \ {nd.n[1]})
+            \cup (IF FIXFV THEN FV(nd.k[2]) \ {nd.n[1], AggCap} ELSE {})
+  ELSE UNION { IF UsesAgg(nd, i) \/ UsesScan(nd, i) THEN {} ELSE FV(nd.k[i]) \ EvalB(nd, i) : i \in DOMAIN nd.k }
        \cup (IF nd.op \in CapOps THEN {AggCap} ELSE {})
 FAV(j) ==
   LET nd == T[j] IN
   IF nd.op = "StreamAgg" THEN (IF FIXFV THEN FAV(nd.k[1]) ELSE {})
+  ELSE IF nd.op = "Site" THEN {}
   ELSE UNION { IF UsesAgg(nd, i) THEN FV(nd.k[i]) \ EvalB(nd, i) ELSE FAV(nd.k[i]) \ AggB(nd, i) : i \in DOMAIN nd.k }
+FSV(j) ==
+  LET nd == T[j] IN
+  IF nd.op = "StreamAggScan" THEN (IF FIXFV THEN FSV(nd.k[1]) ELSE {})
+  ELSE IF nd.op = "Site" THEN {}
+  ELSE UNION { IF UsesScan(nd, i) THEN FV(nd.k[i]) \ EvalB(nd, i) ELSE FSV(nd.k[i]) \ ScanB(nd, i) : i \in DOMAIN nd.k }
 
-(* contexts: [e |-> eval variable -> binding depth, a |-> agg variable -> binding depth] *)
+(* contexts: [e / a / s |-> eval / agg / scan variable -> binding depth] *)
 ChildCtx(nd, i, ctx, depth) ==
-  LET base == IF UsesAgg(nd, i) THEN [e |-> ctx.a, a |-> EmptyFn]
-              ELSE IF nd.op = "StreamAgg" /\ i = 2 THEN [e |-> ctx.e, a |-> ctx.e]
+  LET base == IF UsesAgg(nd, i) THEN [e |-> ctx.a, a |-> EmptyFn, s |-> EmptyFn]
+              ELSE IF UsesScan(nd, i) THEN [e |-> ctx.s, a |-> EmptyFn, s |-> EmptyFn]
+              ELSE IF nd.op = "StreamAgg" /\ i = 2 THEN [e |-> ctx.e, a |-> ctx.e, s |-> EmptyFn]
+              ELSE IF nd.op = "StreamAggScan" /\ i = 2 THEN [e |-> ctx.e, a |-> EmptyFn, s |-> ctx.e]
               ELSE ctx
-  IN [e |-> [x \in EvalB(nd, i) |-> depth] @@ base.e, a |-> [x \in AggB(nd, i) |-> depth] @@ base.a]
+  IN [e |-> [x \in EvalB(nd, i) |-> depth] @@ base.e, a |-> [x \in AggB(nd, i) |-> depth] @@ base.a,
+      s |-> [x \in ScanB(nd, i) |-> depth] @@ base.s]
 
 BindDepth(j, mbd, ctx) ==
-  MaxOf({mbd} \cup { ctx.e[x] : x \in FV(j) } \cup { ctx.a[x] : x \in FAV(j) })
+  MaxOf({mbd} \cup { ctx.e[x] : x \in FV(j) } \cup { ctx.a[x] : x \in FAV(j) } \cup { ctx.s[x] : x \in FSV(j) })
 
 (* ------------------------------- frames ---------------------------------------------------- *)
-Frame(node, mbd, mvbd, ctx, depth, ins, lift, lname, lkind) ==
-  [node |-> node, ci |-> 0, mbd |-> mbd, mvbd |-> mvbd, ctx |-> ctx,
-   vis |-> {}, avis |-> {}, lets |-> EmptyFn, alets |-> EmptyFn,          \* analysis pass
+Frame(node, mbd, mvbd, ss, ctx, depth, ins, lift, lname, lkind) ==
+  [node |-> node, ci |-> 0, mbd |-> mbd, mvbd |-> mvbd, ss |-> ss, ctx |-> ctx,      \* ss = scan_scope
+   vis |-> {}, avis |-> {}, svis |-> {}, lets |-> EmptyFn, alets |-> EmptyFn, slets |-> EmptyFn,   \* analysis pass
    depth |-> depth, ins |-> ins, lift |-> lift, lname |-> lname, lkind |-> lkind, kids |-> <<>>]  \* print pass
 
 ChildFrame(f, i, depth, ins) ==     \* StackFrame.make_child_frame of either pass
   LET nd == T[f.node] IN
   Frame(nd.k[i],
         IF NewBlock(nd, i) THEN depth ELSE f.mbd,
-        IF NewBlock(nd, i) \/ UsesAgg(nd, i) THEN depth ELSE f.mvbd,
+        IF NewBlock(nd, i) \/ UsesAgg(nd, i) \/ UsesScan(nd, i) THEN depth ELSE f.mvbd,
+        IF NewBlock(nd, i) THEN f.ss ELSE IF UsesAgg(nd, i) THEN FALSE ELSE IF UsesScan(nd, i) THEN TRUE ELSE f.ss,
         ChildCtx(nd, i, f.ctx, depth), depth, ins, -1, "", "")
 
-RootCtx == [e |-> [x \in U.top |-> 0], a |-> EmptyFn]
-NoSite  == [depth |-> -1, lets |-> EmptyFn, alets |-> EmptyFn]
-NoBind  == [on |-> FALSE, lets |-> EmptyFn, alets |-> EmptyFn, vis |-> {}, avis |-> {}, bodies |-> <<>>]
+IsSiteRoot == T[1].op = "Site"
+RootCtx == [e |-> IF IsSiteRoot THEN EmptyFn ELSE [x \in U.top |-> 0], a |-> EmptyFn, s |-> EmptyFn]
+NoSite  == [depth |-> -1, lets |-> EmptyFn, alets |-> EmptyFn, slets |-> EmptyFn]
+NoBind  == [on |-> FALSE, lets |-> EmptyFn, alets |-> EmptyFn, slets |-> EmptyFn, vis |-> {}, avis |-> {}, svis |-> {}, bodies |-> <<>>]
+SiteBind(st) == [NoBind EXCEPT !.on = TRUE, !.lets = st.lets, !.alets = st.alets, !.slets = st.slets]
 Depths  == 0..(N + 1)
 
 (* MODE = "enum": grow every DAG of the universe;  MODE = "file": start from the finished DAGs listed in
@@ -113,7 +141,7 @@ Build ==
 StartAnalysis ==
   /\ phase = "build" /\ P.holes = <<>>
   /\ phase' = "analysis"
-  /\ stack' = <<Frame(1, 0, 0, RootCtx, 0, FALSE, -1, "", "")>>
+  /\ stack' = <<Frame(1, 0, 0, FALSE, RootCtx, 0, FALSE, -1, "", "")>>
   /\ sites' = [j \in DOMAIN T |-> NoSite]
   /\ UNCHANGED <<P, uid, bstack, out, res>>
 
@@ -127,18 +155,17 @@ APost ==
          nd  == T[f.node]
          bd  == BindDepth(f.node, f.mbd, f.ctx)
          marked == IF ~Liftable(nd) THEN stack
+                   ELSE IF bd < f.mvbd /\ f.ss THEN [stack EXCEPT ![bd + 1].svis = @ \cup {f.node}]
                    ELSE IF bd < f.mvbd THEN [stack EXCEPT ![bd + 1].avis = @ \cup {f.node}]
                    ELSE [stack EXCEPT ![bd + 1].vis = @ \cup {f.node}]
      IN /\ f.ci + 1 > Len(nd.k)
         /\ stack' = SubSeq(marked, 1, top - 1)
-        /\ sites' = IF f.lets # EmptyFn \/ f.alets # EmptyFn
-                    THEN [sites EXCEPT ![f.node] = [depth |-> top - 1, lets |-> f.lets, alets |-> f.alets]]
+        /\ sites' = IF f.lets # EmptyFn \/ f.alets # EmptyFn \/ f.slets # EmptyFn
+                    THEN [sites EXCEPT ![f.node] = [depth |-> top - 1, lets |-> f.lets, alets |-> f.alets, slets |-> f.slets]]
                     ELSE sites
         /\ IF top = 1
            THEN /\ phase' = "print"
-                /\ bstack' = [d \in Depths |-> IF d = 0 /\ sites'[1].depth = 0
-                                               THEN [NoBind EXCEPT !.on = TRUE, !.lets = sites'[1].lets, !.alets = sites'[1].alets]
-                                               ELSE NoBind]
+                /\ bstack' = [d \in Depths |-> IF d = 0 /\ sites'[1].depth = 0 THEN SiteBind(sites'[1]) ELSE NoBind]
            ELSE UNCHANGED <<phase, bstack>>
   /\ UNCHANGED <<P, uid, out, res>>
 
@@ -146,6 +173,7 @@ AKind(cf, child, top) ==      \* which lifted_lets dict the child is already kno
   LET bd == BindDepth(child, cf.mbd, cf.ctx) IN
   IF bd >= top THEN "none"
   ELSE IF bd >= cf.mvbd THEN (IF child \in stack[bd + 1].vis THEN "value" ELSE "none")
+  ELSE IF cf.ss THEN (IF child \in stack[bd + 1].svis THEN "scan" ELSE "none")
   ELSE IF child \in stack[bd + 1].avis THEN "agg" ELSE "none"
 
 (* the child was seen before at its binding frame: (second time) lift it, never traverse again *)
@@ -161,12 +189,16 @@ ASeen ==
                bd    == BindDepth(child, cf.mbd, cf.ctx)
                kind  == AKind(cf, child, top)
                name  == "__cse_" \o ToString(uid + 1)
-               known == IF kind = "value" THEN child \in DOMAIN stack[bd + 1].lets ELSE child \in DOMAIN stack[bd + 1].alets
+               known == CASE kind = "value" -> child \in DOMAIN stack[bd + 1].lets
+                          [] kind = "scan"  -> child \in DOMAIN stack[bd + 1].slets
+                          [] OTHER          -> child \in DOMAIN stack[bd + 1].alets
            IN /\ kind # "none"
               /\ uid' = IF known THEN uid ELSE uid + 1
               /\ stack' = IF known THEN [stack EXCEPT ![top].ci = ci]
                           ELSE IF kind = "value"
                                THEN [[stack EXCEPT ![top].ci = ci] EXCEPT ![bd + 1].lets = (child :> name) @@ @]
+                          ELSE IF kind = "scan"
+                               THEN [[stack EXCEPT ![top].ci = ci] EXCEPT ![bd + 1].slets = (child :> name) @@ @]
                                ELSE [[stack EXCEPT ![top].ci = ci] EXCEPT ![bd + 1].alets = (child :> name) @@ @]
   /\ UNCHANGED <<phase, P, sites, bstack, out, res>>
 
@@ -188,14 +220,14 @@ ADescend ==
 (* ------------------------------- CSEPrintPass ---------------------------------------------- *)
 StartPrint ==     \* the root frame (StackFrame.make(root, ..., depth 0)); bstack[0] was registered in APost
   /\ phase = "print" /\ stack = <<>> /\ res = 0
-  /\ stack' = <<Frame(1, 0, 0, RootCtx, 0, sites[1].depth = 0, -1, "", "")>>
+  /\ stack' = <<Frame(1, 0, 0, FALSE, RootCtx, 0, sites[1].depth = 0, -1, "", "")>>
   /\ UNCHANGED <<phase, P, sites, uid, bstack, out, res>>
 
 RECURSIVE WrapLets(_, _, _, _)
 WrapLets(o, bodies, i, inner) ==     \* add_lets: bodies[1] is the outermost let
   IF i = 0 THEN [out |-> o, root |-> inner]
   ELSE LET b  == bodies[i]
-           nd == Node(IF b.kind = "value" THEN "Let" ELSE "AggLet", <<b.val, inner>>, <<b.name>>, 0)
+           nd == Node(CASE b.kind = "value" -> "Let" [] b.kind = "scan" -> "ScanLet" [] OTHER -> "AggLet", <<b.val, inner>>, <<b.name>>, 0)
        IN WrapLets(Append(o, nd), bodies, i - 1, Len(o) + 1)
 
 PPost ==
@@ -238,17 +270,16 @@ PChild ==
                ins   == sites[child].depth = cd
                cf    == ChildFrame(f, ci, cd, ins)
                \* StackFrame.make registers the child's binding frame as a side effect, before the lift decision
-               bs1   == IF ins THEN [bstack EXCEPT ![cd] = [NoBind EXCEPT !.on = TRUE, !.lets = sites[child].lets,
-                                                                     !.alets = sites[child].alets]]
-                        ELSE bstack
+               bs1   == IF ins THEN [bstack EXCEPT ![cd] = SiteBind(sites[child])] ELSE bstack
                bd    == BindDepth(child, cf.mbd, cf.ctx)
                c     == bs1[bd]
                kind  == IF ~c.on THEN "none"
                         ELSE IF bd >= cf.mvbd /\ child \in DOMAIN c.lets THEN "value"
-                        ELSE IF cf.mbd <= bd /\ bd < cf.mvbd /\ child \in DOMAIN c.alets THEN "agg"
+                        ELSE IF cf.mbd <= bd /\ bd < cf.mvbd /\ cf.ss /\ child \in DOMAIN c.slets THEN "scan"
+                        ELSE IF cf.mbd <= bd /\ bd < cf.mvbd /\ ~cf.ss /\ child \in DOMAIN c.alets THEN "agg"
                         ELSE "none"
-               name  == IF kind = "value" THEN c.lets[child] ELSE c.alets[child]
-               seen  == IF kind = "value" THEN child \in c.vis ELSE child \in c.avis
+               name  == CASE kind = "value" -> c.lets[child] [] kind = "scan" -> c.slets[child] [] OTHER -> c.alets[child]
+               seen  == CASE kind = "value" -> child \in c.vis [] kind = "scan" -> child \in c.svis [] OTHER -> child \in c.avis
                oRef  == Append(out, Node("Ref", <<>>, <<name>>, 0))
                st1   == [stack EXCEPT ![top].ci = ci]
            IN IF kind = "none"
@@ -264,8 +295,9 @@ PChild ==
                            /\ bstack' = bs2
                       ELSE /\ stack' = Append([st1 EXCEPT ![top].kids = Append(@, Len(oRef))],
                                               [cf2 EXCEPT !.lift = bd, !.lname = name, !.lkind = kind])
-                           /\ bstack' = IF kind = "value" THEN [bs2 EXCEPT ![bd].vis = @ \cup {child}]
-                                        ELSE [bs2 EXCEPT ![bd].avis = @ \cup {child}]
+                           /\ bstack' = CASE kind = "value" -> [bs2 EXCEPT ![bd].vis = @ \cup {child}]
+                                          [] kind = "scan"  -> [bs2 EXCEPT ![bd].svis = @ \cup {child}]
+                                          [] OTHER          -> [bs2 EXCEPT ![bd].avis = @ \cup {child}]
   /\ UNCHANGED <<phase, P, sites, uid, res>>
 
 Done == phase \in {"done", "crashed"} /\ UNCHANGED vars
@@ -274,7 +306,7 @@ Next == Build \/ StartAnalysis \/ APost \/ ASeen \/ ADescend \/ StartPrint \/ PP
 Spec == Init /\ [][Next]_vars
 
 (* ------------------------------- properties ------------------------------------------------ *)
-FreeRecs == SetToSeq({ [n |-> x, ty |-> IF x = "a" THEN "a" ELSE "i"] : x \in U.top })
+FreeRecs == IF IsSiteRoot THEN <<>> ELSE SetToSeq({ [n |-> x, ty |-> IF x = "a" THEN "a" ELSE "i"] : x \in U.top })
 
 DoneScoped == phase = "done" => WellScoped(out, res, U.top)
 DoneSame   == phase = "done" => (WellScoped(out, res, U.top) => SameValue(Strip(T), 1, out, res, FreeRecs))
@@ -296,8 +328,8 @@ DepthsInRange ==
 (* every name is handed out once *)
 UidsDistinct ==
   phase = "analysis" =>
-    LET names == UNION { { stack[i].lets[x] : x \in DOMAIN stack[i].lets } \cup { stack[i].alets[x] : x \in DOMAIN stack[i].alets } : i \in DOMAIN stack }
-    IN \A nm \in names : Cardinality({ <<i, x, kd>> \in (DOMAIN stack) \X (DOMAIN T) \X {"v", "a"} :
-                                         IF kd = "v" THEN x \in DOMAIN stack[i].lets /\ stack[i].lets[x] = nm
-                                         ELSE x \in DOMAIN stack[i].alets /\ stack[i].alets[x] = nm }) = 1
+    LET Of(i, kd) == CASE kd = "v" -> stack[i].lets [] kd = "a" -> stack[i].alets [] OTHER -> stack[i].slets
+        names == UNION { { Of(i, kd)[x] : x \in DOMAIN Of(i, kd) } : i \in DOMAIN stack, kd \in {"v", "a", "s"} }
+    IN \A nm \in names : Cardinality({ <<i, x, kd>> \in (DOMAIN stack) \X (DOMAIN T) \X {"v", "a", "s"} :
+                                         x \in DOMAIN Of(i, kd) /\ Of(i, kd)[x] = nm }) = 1
 =============================================================================
